@@ -900,6 +900,19 @@ class Generator:
                           [ob("set_" + low, "Mutation", mf["type"], inner + [sc("ok", T + "Payload", named("Boolean"))],
                               [("id", ("var", "mid")), ("label", ("str", "new"))])])
                 p.decls += [md, Decl("entrypoint", "Mutation", "ReuseM")]
+        # A client field whose refetchable selections differ only through ITS OWN variables, selected once with the two
+        # variables bound to the same value (the two refetch paths then collapse into one in that parent: the index of
+        # the parent's refetch query has to be repeated in usedRefetchQueries) and once with different values.
+        idt = nn(named("ID"))
+        pair_sels = [ob("hub", "Query", qf["hub"]["type"], [Sel("refetch", "__refetch", T), sc("motto", T, S, [("q", ("str", "L"))])], [("id", ("var", "l"))], alias="left"),
+                     ob("hub", "Query", qf["hub"]["type"], [Sel("refetch", "__refetch", T), sc("motto", T, S, [("q", ("str", "R"))])], [("id", ("var", "r"))], alias="right"),
+                     ob("hubs", "Query", qf["hubs"]["type"], [Sel("refetch", "__refetch", T), sc("id", T, idt)])]
+        r.shuffle(pair_sels)
+        pair = Decl("field", "Query", "HubPair", [("l", idt, None), ("r", idt, None)], ["component"] if r.random() < 0.5 else [], pair_sels)
+        same = Decl("field", "Query", "ReuseSame", [("pid", idt, None)], [], [cl(pair, [("l", ("var", "pid")), ("r", ("var", "pid"))])])
+        diff = Decl("field", "Query", "ReuseDiff", [("pid", idt, None), ("oid", idt, None)], [],
+                    [cl(pair, [("l", ("var", "pid")), ("r", ("var", "oid"))]), cl(same, [("pid", ("var", "oid"))], alias="nestedSame")])
+        p.decls += [pair, same, diff, Decl("entrypoint", "Query", "ReuseSame"), Decl("entrypoint", "Query", "ReuseDiff")]
         p.tags.add("reuse")
 
     def gen_program_arg_hazard(self, n):
